@@ -24,6 +24,17 @@ CHECKS.update({
    text="Generated RTT sequences, timer start/stop/close/expiry interleavings, never-acknowledging / late-acknowledging puppet peers and DATA arrival patterns; every expiry instant, retry count and SACK instant is compared exactly (virtual clock) with the reference schedule.",
    note="RTOMax is generated >= 1000 ms (a maximum below the protocol minimum makes the statement unsatisfiable); a SACK is required 'at once' only when a duplicate arrived or a gap is still visible after the whole packet was processed.", ref="6/C19"),
 })
+CHECKS.update({
+ "C11": dict(level="exploration", technique="model-based property testing (rapid): reassembly queue byte counter vs white-box walk of every held chunk; hostile puppet sender vs real receiver with window credit, admission and restoration oracles after every packet",
+   text="Generated chunk arrival histories (ordered/unordered, DATA/I-DATA, duplicates under fresh TSNs, partial messages, all four forward-TSN purges, short reads, entry limits) and a window-ignoring sender; after every step the counter equals the bytes actually held, the advertised window equals buffer minus held, nothing is stored beyond the TSN window or at zero window unless it fills a gap, and after everything is abandoned and read the window is the full buffer again.",
+   note="Reads are issued synchronously by the script so that the advertised value can be compared exactly; the same TSN is never handed to one stream twice (the association filters duplicates by TSN).", ref="6/C11"),
+ "C13": dict(level="exploration", technique="property-based testing (rapid) of the checksum acceptance predicate against an independent CRC32c; emission monitor over whole simulated runs for all option combinations; injection of corrupted copies of genuine packets",
+   text="Valid packets x corruptions (bit flips, zeroed or replaced checksum) x receiver option decide acceptance against an independent predicate; every emitted packet's checksum field is judged against the negotiated rule (incl. a peer advertising a non-DTLS method); rejected packets must leave state untouched and trigger no output.",
+   note="Independent CRC32c implementation (own table) is the reference.", ref="6/C13"),
+ "C17": dict(level="exploration", technique="model-based property testing (rapid) of the pending queue against per-policy fairness laws; wire monitor over simulated runs; puppet peer sending wrong-kind chunks",
+   text="Generated push/pop programs over 1-6 streams check per-stream FIFO, message atomicity, the round-robin round law and the WFQ normalised-service bound over every interval in which two streams are continuously backlogged; simulated runs check framing kind and fragment TSN/FSN order on the wire; wrong-kind chunks must be answered with a protocol-violation ABORT.",
+   note="Fairness laws are evaluated on pop histories of the queue driven the way the association drives it (peek then pop).", ref="6/C17"),
+})
 NOT_YET = {}
 props = [json.loads(l) for l in open(os.path.join(V, "properties.jsonl"))]
 checks = []
